@@ -103,6 +103,8 @@ def _center(rng, r):
     k = rng.random()
     if k < 0.15:
         return [0., 0., 0.]
+    if k < 0.35:
+        return [float(rng.randint(-12, 12)) for _ in range(3)]  # whole numbers: handed over as an integer Vec / tuple / array (see _materialise)
     return _pt(rng, r * rng.choice([0.5, 3.0, 30.0]))
 
 
@@ -369,7 +371,10 @@ def _materialise(gen, p, desc):
         aux["z"] = z
         return {"mesh": build.surface(z["V"], z["F"]), "mode": p["mode"]}, aux
     for k, v in p.items():
-        if k in POINT_PARAMS:
+        if k in POINT_PARAMS and all(float(x).is_integer() for x in v) and any(x != 0 for x in v) and desc["seed"] % 3 != 0:
+            iv = [int(x) for x in v]
+            args[k] = [M.Vec(*iv), tuple(iv), np.array(iv)][desc["seed"] % 3]  # a point written with whole numbers is an integer array
+        elif k in POINT_PARAMS:
             args[k] = M.Vec(*v)
         elif desc.get("num") == "np" and isinstance(v, int) and not isinstance(v, bool):
             args[k] = np.int64(v)
